@@ -1,6 +1,10 @@
-\* every law of C04; run with Fix = TRUE (mechanism with the candidate repairs: must hold),
-\* with Fix = FALSE (faithful mechanism: ClassKept is violated = the recorded defects) and
-\* with each Mutant (must be violated)
+\* spec mutant: the mechanism variant "copy_unguarded" (see GlomErrors.tla) must violate a law
+CONSTANTS
+  Mutant = "copy_unguarded"
+  MinDepth = 0
+  MaxDepth = 1
+  Rich = TRUE
+  KwMode = "full"
 INIT Init
 NEXT Next
 INVARIANT CatalogueOK
